@@ -71,7 +71,7 @@ func c04Input(r *core.Rand) inputs.Input {
 		in.V = r.Range(2, 9)
 		in.P = r.Range(1, rows)
 	case v < 78:
-		fams := []string{"html_meta", "html_meta", "xml_enc", "latin1", "bom16", "text", "text_nul", "svg", "shebang", "bom8", "bom8"}
+		fams := []string{"html_meta", "html_meta", "xml_enc", "latin1", "bom16", "text", "text_nul", "svg", "shebang", "bom8", "bom8", "utf8", "utf8", "utf8"}
 		in.Fam = fams[r.Intn(len(fams))]
 		in.V = r.Intn(6)
 		if in.N > 60000 && in.Fam != "text" && in.Fam != "text_nul" {
@@ -80,6 +80,9 @@ func c04Input(r *core.Rand) inputs.Input {
 		in.P = r.Range(0, in.N)
 		if in.Fam == "bom8" {
 			in.V, in.N = r.Intn(16), r.Intn(300)
+		}
+		if in.Fam == "utf8" {
+			in.P = r.Intn(4)
 		}
 		if in.Fam == "html_meta" && r.Chance(1, 2) {
 			in.P = []int{0, 10, 3000, 3100}[r.Intn(4)]
